@@ -347,8 +347,8 @@ decode_teletext_packet_0	(vbi_sliced_filter *	sf,
 	pgno = magazine * 0x100 + page;
 
 	flags = vbi_unham16p (buffer + 4)
-		| (vbi_unham16p (buffer + 6) << 8)
-		| (vbi_unham16p (buffer + 8) << 16);
+		| (vbi_unham16p (buffer + 6) * 256)
+		| (vbi_unham16p (buffer + 8) * 65536);
 	if (unlikely (flags < 0)) {
 		set_errstr (sf, _("Hamming error in Teletext "
 				  "packet flags."));
